@@ -108,95 +108,6 @@ example : (run {} specsF03 "/123" "GET").isMatched = true := by decide +kernel
 
 /-! ### NotFound -/
 
-/-- what `match_notfound_only_if_partial` concludes for one rule -/
-def NotAdmitted (r : Rule) (q : Req) (dom path : Str) : Prop :=
-  admitsPath r dom path = false ∧ admits r q dom path = none ∧ (ruleOK q r = true → wantsSlash r dom path = false)
-
-theorem notAdmitted_of_none {m : RMap} {cfg} (hb : Built cfg m) {q : Req} {dom path : Str}
-    (hmeth : ∀ r ∈ m.rules, r.methodsOK = true)
-    (hres : (dfs q m.root (segments dom path) []).res = .none)
-    (hms : (dfs q m.root (segments dom path) []).ms = [])
-    (hwsm : (dfs q m.root (segments dom path) []).wsm = false) :
-    ∀ r ∈ m.rules, r.spec.buildOnly = false → NotAdmitted r q dom path := by
-  intro r hr hbo
-  have hwf : WF m.root := by rw [hb.root_eq]; exact WF.buildRoot _
-  have hi : InTrie m.root r.parts r := by rw [hb.root_eq, inTrie_buildRoot]; exact ⟨hr, hbo, rfl⟩
-  have hcomp := dfs_complete q m.root hwf _ _ hres r.parts r
-  have hacc := dfs_acc_complete q m.root hwf _ _ hres r.parts r
-  -- a counted admission is impossible
-  have hcnt : ∀ via, Counted r via → walkVia via r.parts (segments dom path) = none := by
-    intro via hc
-    cases hw : walkVia via r.parts (segments dom path) with
-    | none => rfl
-    | some vs =>
-      exfalso
-      have hsome : (walkVia via r.parts (segments dom path)).isSome = true := by rw [hw]; rfl
-      obtain ⟨h1, h2⟩ := hacc via hi hc hsome
-      by_cases hmo : methodOK q r = true
-      · by_cases hws : r.websocket = q.websocket
-        · have hok : ruleOK q r = true := by simp [ruleOK, hmo, hws]
-          have := hcomp via hi hok (by rintro rfl; rcases hc with h | ⟨_, h⟩; cases h; exact h)
-          rw [hw] at this; cases this
-        · have := h2 hmo hws
-          rw [hwsm] at this; cases this
-      · have hmo : methodOK q r = false := by simpa using hmo
-        have hmr := hmeth r hr
-        simp only [methodOK] at hmo
-        simp only [Rule.methodsOK] at hmr
-        cases hmm : r.methods with
-        | none => simp [hmm] at hmo
-        | some ms =>
-          simp only [hmm] at hmr
-          cases ms with
-          | nil => simp at hmr
-          | cons x t =>
-            have := h1 (by simp [methodOK, hmm] at hmo ⊢; exact hmo) x (by simp [hmm])
-            rw [hms] at this; cases this
-  have hdirect := hcnt .direct (.inl rfl)
-  have htrail : r.strict = false → walkVia .trailing r.parts (segments dom path) = none :=
-    fun hs => hcnt .trailing (.inr ⟨rfl, hs⟩)
-  have hns : ruleOK q r = true → walkVia .noslash r.parts (segments dom path) = none :=
-    fun hok => hcomp .noslash hi hok (by intro h; cases h)
-  refine ⟨?_, ?_, ?_⟩
-  · simp only [admitsPath, hdirect, Option.isSome_none, Bool.false_or, Bool.and_eq_false_imp, Bool.not_eq_true']
-    intro hs; rw [htrail hs]; rfl
-  · simp only [admits]
-    split
-    · rename_i hok
-      simp only [admitsGroups, hdirect]
-      cases hs : r.strict with
-      | true => simp
-      | false => simp [htrail hs, hns hok]
-    · rfl
-  · intro hok
-    simp [wantsSlash, hns hok]
-
-/-- the first search of a `NoMatch` outcome returned `None`, given that conversions cannot fail -/
-theorem first_search_none {m : RMap} {cfg} (hb : Built cfg m) (hconv : ConvOK m.rules) {q : Req} {dom path : Str}
-    {ms wsm} (h : matchSM m.root m.cfg.mergeSlashes m.cfg.redirectDefaults q dom path = .noMatch ms wsm) :
-    (dfs q m.root (segments dom path) []).res = .none ∧
-    ((m.cfg.mergeSlashes = false ∧ ms = (dfs q m.root (segments dom path) []).ms ∧ wsm = (dfs q m.root (segments dom path) []).wsm) ∨
-     (m.cfg.mergeSlashes = true ∧
-        ms = (dfs q m.root (segments dom path) []).ms ++ (dfs q m.root (segments dom (mergeSlashes path)) []).ms ∧
-        wsm = ((dfs q m.root (segments dom path) []).wsm || (dfs q m.root (segments dom (mergeSlashes path)) []).wsm))) := by
-  rcases matchSM_noMatch_inv h with ⟨r, vs, hf, hc⟩ | ⟨hn, hrest⟩
-  · exfalso
-    have hs := dfs_sound q m.root (segments dom path) []
-    rw [hf] at hs
-    obtain ⟨_, ps, vs', via, hi, hv, hw, _⟩ := hs
-    rw [hb.root_eq, inTrie_buildRoot] at hi
-    obtain ⟨hmem, _, rfl⟩ := hi
-    simp only [List.nil_append] at hv
-    subst hv
-    have hacc := walkVia_accepts hw
-    rw [hb.kinds r hmem] at hacc
-    have := convertValues_isSome hacc (hconv r hmem)
-    rw [hc] at this; cases this
-  · refine ⟨hn, ?_⟩
-    rcases hrest with ⟨h1, h2, h3⟩ | ⟨h1, h2, h3, _⟩
-    · exact .inl ⟨h1, h2, h3⟩
-    · exact .inr ⟨h1, h2, h3⟩
-
 /-- **match_notfound_only_if_partial.** When `MapAdapter.match` raises `NotFound`, no rule of the map
 admits the path — directly or through an extra final slash — for ANY method or protocol; no rule
 admits it in any way for the request method; and no strict branch rule fit for the request would admit
@@ -282,40 +193,6 @@ theorem match_notfound_any_method_full_false :
 
 
 /-! ### MethodNotAllowed -/
-
-/-- the path has no doubled slash the matcher's second pass would merge, or merging is off -/
-def NoMerge (m : RMap) (path : Str) : Prop := m.cfg.mergeSlashes = false ∨ mergeSlashes path = path
-
-/-- rule `r` admits the path for another method: directly or through an extra final slash, and the
-request method is not in its method set (what `have_match_for` collects) -/
-def AdmitsOtherMethod (r : Rule) (q : Req) (dom path : Str) : Prop :=
-  admitsPath r dom path = true ∧ methodOK q r = false
-
-theorem admitsPath_iff {r : Rule} {dom path : Str} :
-    admitsPath r dom path = true ↔ ∃ via, Counted r via ∧ (walkVia via r.parts (segments dom path)).isSome = true := by
-  simp only [admitsPath, Bool.or_eq_true, Bool.and_eq_true, Bool.not_eq_true']
-  constructor
-  · rintro (h | ⟨hs, h⟩)
-    · exact ⟨.direct, .inl rfl, h⟩
-    · exact ⟨.trailing, .inr ⟨rfl, hs⟩, h⟩
-  · rintro ⟨via, (rfl | ⟨rfl, hs⟩), h⟩
-    · exact .inl h
-    · exact .inr ⟨hs, h⟩
-
-theorem matchSM_of_first_none {m : RMap} {q : Req} {dom path : Str} (hnm : NoMerge m path)
-    (hres : (dfs q m.root (segments dom path) []).res = .none) :
-    ∃ ms wsm, matchSM m.root m.cfg.mergeSlashes m.cfg.redirectDefaults q dom path = .noMatch ms wsm ∧
-      ∀ x, x ∈ ms ↔ x ∈ (dfs q m.root (segments dom path) []).ms := by
-  simp only [segments] at hres
-  cases hmg : m.cfg.mergeSlashes with
-  | false =>
-    refine ⟨_, _, by simp only [matchSM, hres]; rfl, fun x => Iff.rfl⟩
-  | true =>
-    rcases hnm with h | h
-    · rw [hmg] at h; cases h
-    · refine ⟨_, _, by simp only [matchSM, hres, h, if_true]; rfl, ?_⟩
-      intro x
-      simp [segments]
 
 /-- **match_405_iff_partial.** `MapAdapter.match` raises `MethodNotAllowed` exactly when no rule admits
 the path for the request (in any way, and no slash redirect is due) while some rule admits it
@@ -534,16 +411,6 @@ example : (match mkMap {} specsPrio with
        | _ => false) &&
       m.rules.all (fun r' => admitsDirect r' (reqOf adapter0 none none) (domainPartOf m.cfg adapter0) (pathPart "/12".toList))
     | none => false) = true := by decide +kernel
-
-theorem listLt_irrefl {α} {lt : α → α → Bool} (h : SWO lt) (l : List α) : listLt lt l l = false := by
-  cases hl : listLt lt l l with
-  | false => rfl
-  | true => have := (swo_listLt h).asymm l l hl; rw [hl] at this; cases this
-
-/-- two variable parts with the same literal decoration are ordered by the converter weight -/
-theorem weighting_lt_same_statics (n : Int) (st : List (Int × Int)) (w1 w2 : Int) :
-    Weighting.lt ⟨n, st, -1, [w1]⟩ ⟨n, st, -1, [w2]⟩ = decide (w1 < w2) := by
-  simp [Weighting.lt, listLt_irrefl swo_pairLt, listLt, intLt]
 
 /-- **literal_beats_variable.** If two rules share their first parts and then one has a literal part
 where the other has a variable part, the one with the literal is strictly more specific; hence
